@@ -799,12 +799,14 @@ class _FPCore2FPy:
         ctx.props = dict(props)
 
         # possibly generate context
-        if 'precision' in props:
+        # a rounding mode alone also selects a context: binary64 (the default
+        # precision) under that mode
+        if 'precision' in props or 'round' in props:
             try:
                 ctx_val: None | Context | FPCoreContext = FPCoreContext(**props).to_context()
             except NoSuchContextError:
                 ctx_val = FPCoreContext(**props)
-            del props['precision']
+            props.pop('precision', None)
         else:
             ctx_val = None
 
